@@ -263,8 +263,13 @@ def run_history_check(prop, tier, mode, runs, cat, budget_s, design_ref, assumpt
             agg["other"]["unstable_universe_difference:%s[%s]" % (d["class"], d["dict_kind"])] += 1
             handled -= 1
             continue
+        if not ok and rec.get("verdict") == "died" and rec.get("proc_first") is not None and rec["proc_first"] < rec["run"]:
+            # the death may depend on what the same worker process executed before (heap layout): replay the
+            # process from its first history on, in the same universe; still one seed, one exact execution
+            ok, replay = gate_prefix(hr, prop, mode, u, rec, d, seed)
         if not ok:
-            unrepro.append({"run": rec["run"], "class": d["class"], "kind": d["dict_kind"]})
+            unrepro.append({"run": rec["run"], "class": d["class"], "kind": d["dict_kind"], "step": d.get("step"), "universe": u, "process_first_run": rec.get("proc_first"),
+                            "stderr_excerpt": S.symbolize_report(rec.get("stderr") or "")[-2500:]})
             print("UNREPRODUCIBLE property=%s run=%s class=%s kind=%s" % (prop, rec["run"], d["class"], d["dict_kind"]))
             exit_code = 2
             continue
@@ -399,6 +404,40 @@ def gate(hr, prop, mode, u, rec, d, seed):
     return True, replay
 
 
+def _prefix_outcome(rc, recs, out, err, run):
+    """class of the death of a worker process, provided it died while `run` was in flight"""
+    last_begin = None
+    done = set()
+    for line in out.splitlines():
+        line = line.strip()
+        if line.startswith('{"begin"'):
+            try:
+                last_begin = json.loads(line)["begin"]
+            except ValueError:
+                pass
+    for r in recs:
+        if "run" in r and "verdict" in r:
+            done.add(r["run"])
+    if rc == 0 or last_begin != run or run in done:
+        return None
+    return death_desc({"stderr": S._clip(err), "exit": rc})["class"]
+
+
+def gate_prefix(hr, prop, mode, u, rec, d, seed):
+    first, count = rec["proc_first"], rec["run"] - rec["proc_first"] + 1
+    rc, recs, out, err = S.run_one(argv_run(hr.exe, mode, seed, first, count, hr.cat, hr.extra), env=universe_env(u), timeout=2400)
+    cls = _prefix_outcome(rc, recs, out, err, rec["run"])
+    if cls != d["class"]:
+        return False, None
+    replay = {"property": prop, "harness": "history_sim", "variant": "asan", "mode": mode, "base_seed": seed, "run": rec["run"], "catalogue": hr.cat, "extra": hr.extra,
+              "process_prefix": {"first": first, "count": count},
+              "universe": {"index": u, "malloc_fill": UNIVERSES[u][0], "free_fill": UNIVERSES[u][1]},
+              "expect": {"class": d["class"], "kind": d["dict_kind"], "step": d.get("step")},
+              "history": rec.get("spec"), "detail": "recurs only when the worker process first executes histories %d..%d (heap layout)" % (first, rec["run"] - 1),
+              "stderr_excerpt": S.symbolize_report(S._clip(err))[-2500:]}
+    return True, replay
+
+
 def _bar(spec):
     d = collections.OrderedDict()
     for kv in spec.split("|"):
@@ -507,6 +546,16 @@ def replay_file(path):
     rp = json.load(open(path))
     exe = B.build("asan", "history_sim")
     u = rp["universe"]["index"]
+    if rp.get("process_prefix"):
+        pp = rp["process_prefix"]
+        rc, recs, out, err = S.run_one(argv_run(exe, rp["mode"], rp["base_seed"], pp["first"], pp["count"], rp["catalogue"], rp.get("extra", "")), env=universe_env(u), timeout=2400)
+        cls = _prefix_outcome(rc, recs, out, err, rp["run"]) or "process survived"
+        same = cls == rp["expect"]["class"]
+        sys.stderr.write(S._clip(err)[-5000:])
+        print("replay: observed=%s expected=%s -> %s" % (cls, rp["expect"]["class"], "REPRODUCED" if same else "not reproduced"))
+        if same:
+            print("VIOLATION property=%s replay=%s" % (rp["property"], path))
+        return 1 if same else 0
     if rp.get("minimised_history"):
         rc, recs, out, err = S.run_one([exe, "replay", rp["minimised_history"]], env=universe_env(u), timeout=600)
     else:
